@@ -191,6 +191,10 @@ func getOctoSQLValue(t octosql.Type, value *fastjson.Value) (out octosql.Value, 
 	case octosql.TypeIDList:
 		if value.Type() == fastjson.TypeArray {
 			arr, _ := value.Array()
+			if t.List.Element == nil && len(arr) > 0 {
+				// Only empty lists were seen when inferring the schema, there is no element type.
+				return octosql.ZeroValue, false
+			}
 			values := make([]octosql.Value, len(arr))
 
 			outOk := true
